@@ -6,4 +6,5 @@ Cost112  == <<1, 1, 2>>
 Cost1123 == <<1, 1, 2, 3>>
 Cost123  == <<1, 2, 3>>
 Cost12   == <<1, 2>>
+Cost1    == <<1>>
 =============================================================================
